@@ -60,10 +60,10 @@ CHECKS = {
  "C19": dict(text="For every finite base > 1 and offset (all bit patterns) and the three kinds: binary Encode -> Decode and ToProto -> FromProto give the same kind with bit-identical parameters AND derived fields, the same Index/Value/LowerBound/accuracy/range on every probe (congruence over deterministic uninterpreted Log/Exp/Pow), Equals both ways; the accuracy constructor equals the base/offset constructor; Equals is reflexive, never holds across kinds, never for bases or offsets that differ clearly (incl. zero vs non-zero offset); unknown flags, truncated blocks, nil and unsupported protobuf mappings are errors; on a grid, accuracies 0.1% apart give unequal mappings.",
              note="Symmetry of Equals for two fully symbolic mappings and the accuracy-separation for all accuracies are thorough-tier attempts (float products). The streaming protobuf form of a mapping is covered in C09(c).",
              ref="§6 C19"),
- "C04": dict(text="One inductive step of every store operation from an arbitrary state satisfying the representation invariant (dense: any window in a symbolic array with stale cells beyond len; sparse: M distinct symbolic indexes; buffered-paginated: enumerated page-table layouts with symbolic buffer, page base, cells) is proven by the solver to preserve the invariant and to change the abstract index->weight map exactly as the operation's specification says, at a skolem probe index; every observer (TotalCount, IsEmpty, Min/MaxIndex, KeyAtRank at symbolic rank incl. exact cumulative boundaries and negatives, ForEach incl. early stop, Bins) is proven to return the value the specification assigns to that map. By induction this covers operation histories of any length whose states fit the stated size bounds.",
+ "C04": dict(text="One inductive step of every store operation from an arbitrary state satisfying the representation invariant (dense: any window in a symbolic array with stale cells beyond len; sparse: M distinct symbolic indexes; buffered-paginated: enumerated page-table layouts with symbolic buffer, page base, cells) is proven by the solver to preserve the invariant and to change the abstract index->weight map exactly as the operation's specification says, at a skolem probe index; every observer (TotalCount, IsEmpty, Min/MaxIndex, KeyAtRank at symbolic rank incl. exact cumulative boundaries and negatives, ForEach incl. early stop, Bins) is proven to return the value the specification assigns to that map. By induction this covers operation histories of any length whose states fit the stated size bounds. In addition every 3-operation history from a NEW store (adds, observations, copies, clears, merges, reweights, decodes of the three bin layouts) is executed through the real constructors and compared with a ghost multiset, and after every copy and merge the two stores are proven to share no mutable memory (structural disjointness of the engine's heap graph), which is what catches added caches/flags and aliasing that the one-step states cannot contain.",
              note="Weights are dyadic fixed point (multiples of 2^-4, <= 2^20 units) and indexes are mathematical integers with int32 range: exactness/no-wrap is enforced by bound tracking (|m| < 2^53). Trusted: the invariants are inductive only as far as the step obligations show; go/ssa; this engine; z3/cvc5. Bounds: dense window arrays of 0/1/4 symbolic cells plus an enumerated 66-cell layout, new index within 12 of the window; sparse M<=3 with all iteration orders; paginated layouts as listed in the evidence. Encode/Decode and protobuf steps are covered under C06/C09.",
              ref="§6 C04"),
- "C05": dict(text="Collapsing stores with bin limit N in {1,2,3,4}: from an arbitrary invariant state (whole array symbolic, collapsed or not, empty or cleared with stale cells) one AddWithCount and one same-kind MergeWith (every pair of limits in {1,2,3}, receiver/argument empty or not) are proven to keep len<=N and span<=N, conserve total weight, leave the argument unchanged and yield exactly the content folded at the collapsing edge; no operation can panic.",
+ "C05": dict(text="Collapsing stores with bin limit N in {1,2,3,4}: from an arbitrary invariant state (whole array symbolic, collapsed or not, empty or cleared with stale cells) one AddWithCount and one same-kind MergeWith (every pair of limits in {1,2,3}, receiver/argument empty or not) are proven to keep len<=N and span<=N, conserve total weight, leave the argument unchanged and yield exactly the content folded at the collapsing edge; no operation can panic. A matrix of cross-kind merges (each store built by the real code) and every 3-operation history from a new N=3 store are compared with the folded ghost content; receiver and argument share no memory after a merge.",
              note="Same trusted base and weight/index abstractions as C04. Bounds: N<=4 (add), N<=3 (merge), new index within 24 of the window, merged windows within 12 of each other. N=2048 is outside. The empty-receiver merge panic found by this check was repaired (known_findings.json: fixed).",
              ref="§6 C05"),
  "C18": dict(text="Every codec obligation (round trip, framing with arbitrary prefix/trailing bytes, size functions, strict-prefix EOF, 32-bit overflow, varfloat (v+1)-1, flags, no panic / <=9 bytes read on arbitrary input) is proven by the solver for all 2^64 values of the encoded quantity on the SSA of the real functions; bounded only in the number of surrounding symbolic bytes.",
